@@ -122,8 +122,14 @@ class SimSet(object):
 
 
 def install():
+    import sys
     import hopcroftkarp
     hopcroftkarp.set = SimSet
+    # also own explicit `set(...)` constructions a change might add to persim.bottleneck itself
+    # (set literals / comprehensions cannot be reached this way; the real-hash-seed phase covers those)
+    m = sys.modules.get("persim.bottleneck")
+    if m is not None:
+        m.set = SimSet
 
 
 def uninstall():
